@@ -229,9 +229,23 @@ def run(rep, facts, tier):
                           'the sequence number of the sample is %s, not writer_sn of the submessage' % term_str(ws)[:100], b.where(bb))
     rep.floor('R01.5', n, 2, 'calls of process_received_data')
 
-    # ------------------------------------------------------------ R01.6
+    # ------------------------------------------------------------ R01.6 (shared with C03 R03.6)
+    rule_exclusive_bound(rep, fx, 'R01.6')
+
+    # ------------------------------------------------------------ R01.7 (shared with C14 R14.5)
+    from rules import numberset
+    numberset.run_rule(rep, fx, 'R01.7')
+
+
+def rule_exclusive_bound(rep, fx, rid):
+    """An exclusive `*_before` bound used as the end of an inclusive range must be decremented (shared: C01 R01.6, C03 R03.6)."""
     n = 0
-    for b, bb, t in fx.callers_of('range_inclusive'):
+    sites = []
+    for pat in ('range_inclusive', 'SequenceNumberRange::new', 'FragmentNumberRange::new', 'RangeInclusive::new', 'ops::RangeInclusive::<Idx>::new'):
+        for x in fx.callers_of(pat):
+            if not any(x[0] is y[0] and x[1] == y[1] for y in sites) and not x[0].key.endswith('::range_inclusive'):
+                sites.append(x)
+    for b, bb, t in sites:
         og = Origins(b, summaries=False)
         pn_b = param_names(b)
         hi = og.of_operand(t['args'][1], bb, 'term')
@@ -246,11 +260,9 @@ def run(rep, facts, tier):
         excl = [nm for nm in names if nm.endswith('_before') or nm in ('ack_base', 'all_acked_before')]
         dec = term_has(hi, lambda x: (x[0] == 'call' and x[1].rsplit('::', 1)[-1] in ('sub', 'minus_1')) or (x[0] == 'bin' and x[1].startswith('Sub')))
         ok = not excl or dec
-        rep.check(ok, 'R01.6', '%s/range_inclusive#%d' % (b.key, n), 'end = %s' % term_str(hi)[:80],
-                  'range_inclusive(.., %s): an exclusive bound (%s) is used as an inclusive end without "- 1": the first sequence number after the range is covered too '
+        ctor = strip_generics(callee_res(t)).rsplit('::', 2)
+        ctor = ctor[-1] if ctor[-1] != 'new' else '::'.join(ctor[-2:])
+        rep.check(ok, rid, '%s/%s#%d' % (b.key, ctor if ctor != 'range_inclusive' else 'range_inclusive', n), 'end = %s' % term_str(hi)[:80],
+                  'inclusive range (.., %s): an exclusive bound (%s) is used as an inclusive end without "- 1": the first sequence number after the range is covered too '
                   '(a still relevant change would be declared irrelevant)' % (term_str(hi)[:60], ', '.join(excl)), b.where(bb))
-    rep.floor('R01.6', n, 3, 'calls of SequenceNumber/FragmentNumber::range_inclusive')
-
-    # ------------------------------------------------------------ R01.7 (shared with C14 R14.5)
-    from rules import numberset
-    numberset.run_rule(rep, fx, 'R01.7')
+    rep.floor(rid, n, 4, 'constructions of inclusive sequence-/fragment-number ranges')
